@@ -2,6 +2,7 @@
 C08 — property theorems (stage 1; extended below as the proofs are completed).
 -/
 import GoZero.C08.ProofsTotal
+import GoZero.C08.ProofsComplete
 namespace GoZero.C08.Props
 open GoZero.C08 GoZero.C08.Spec
 
@@ -106,24 +107,41 @@ theorem accept_sound (c : Cfg) (hc : c.pinned = false) (ty : Ty) (j : J) (v : Va
   | slice t => simp at h
   | map t => simp at h
 
-/-
-NOT PROVEN (full statement kept here, see `range_exact` and `dep_exact` for the parts that are):
+/-- **accept_complete** — the converse: for every struct type, every unmarshaler configuration of the repaired code and
+every input document, if the input meets all declared constraints with correctly typed values (`Spec.complete`:
+every tag parses and uses only modelled options, dependencies hold, absent fields are defaulted / optional / maps /
+nested structs without required fields, nulls only for optional fields, supplied scalars are literals of their kind
+inside the declared range and among the declared options, containers element by element) then the unmarshaller
+accepts it — and by `accept_sound` the result holds exactly the supplied values with defaults filled.
 
-  theorem accept_complete (c : Cfg) (hc : c.pinned = false) (ty : Ty) (j : J)
-      (hwt : WellTyped c ty j)                       -- every supplied value has the JSON type its field expects
-      (hsat : ∃ v, satisfies c ty j v = true) :      -- all declared constraints are met
-      ∃ v, unmarshal c ty j = .ok v
+What `Spec.complete` leaves out (the named gap): values the code also accepts but that are not "correctly typed" in
+the sense above — a JSON number for a string-mode field whose literal `json.Number.Float64` refuses, string-encoded
+slices/maps, a range declared on a non-numeric field (the code rejects every supplied value of such a field) — and
+the premise `f64OK` (the literal parses as float64) is stated instead of derived from the integer syntax and a bit
+size ≤ 64 (`Kind.int b` allows any `b`). -/
+theorem accept_complete (c : Cfg) (hc : c.pinned = false) (ty : Ty) (j : J)
+    (h : complete c ty j = true) :
+    ∃ v, unmarshal c ty j = .ok v ∧ satisfies c ty j v = true := by
+  unfold complete at h
+  cases ty with
+  | struct fs =>
+    cases j with
+    | obj m =>
+      simp only at h
+      obtain ⟨vs, hvs⟩ := okFields_complete c hc fs m h
+      have hu : unmarshal c (.struct fs) (.obj m) = .ok (.struct vs) := by simp [unmarshal, hvs, Except.map]
+      exact ⟨_, hu, accept_sound c hc _ _ _ hu⟩
+    | null => simp at h
+    | bool b => simp at h
+    | num s => simp at h
+    | str s => simp at h
+    | arr l => simp at h
+  | prim k => simp at h
+  | ptr t => simp at h
+  | slice t => simp at h
+  | map t => simp at h
 
-What is missing: a declarative `WellTyped` (int syntax and bit size per kind, string-encoded values under
-`string`/WithStringValues, arrays under WithFromArray) and the converse of every primitive path
-(`primWithValue`, `elemValue`, `mapElemValue`), including that a finite number inside the declared range never
-overflows float64.  Proven below: the two constraint tests themselves are exact — the range test accepts
-exactly the numbers inside the range (`range_exact`) and the dependency resolution succeeds exactly when the
-declared dependency holds (`dep_exact`).  Completeness of the real code is exercised only by the differential
-harness (the model accepts ⇔ the implementation accepts, on every generated line).
--/
-
-/-- **range_exact** (part of the converse direction) — on the repaired code the range test accepts a finite number
+/-- **range_exact** (used by the converse direction) — on the repaired code the range test accepts a finite number
 exactly when it lies inside the declared range, open and closed ends respected. -/
 theorem range_exact (c : Cfg) (hc : c.pinned = false) (r : Range) (d : Dec) :
     rangeRejects c r (.fin d) = false ↔ Range.contains r d = true := by
@@ -133,7 +151,7 @@ theorem range_exact (c : Cfg) (hc : c.pinned = false) (r : Range) (d : Dec) :
     cases hd; exact hcont
   · exact rangeRejects_of_contains hc
 
-/-- **dep_exact** (part of the converse direction) — `optional` / `optional=dep` / `optional=!dep` are resolved without
+/-- **dep_exact** (used by the converse direction) — `optional` / `optional=dep` / `optional=!dep` are resolved without
 error exactly when the declared dependency holds on the input, and then to the declared optionality. -/
 theorem dep_exact (o : Opts) (key : Str) (m : Obj) :
     (∃ b, effOptional o key m = .ok b) ↔ depOK o key m = true := by
@@ -188,5 +206,12 @@ example : tagsOK exampleTy = true := by decide +kernel
 
 example : (match unmarshal {} exampleTy exampleIn with | .ok v => satisfies {} exampleTy exampleIn v | _ => false) = true := by
   decide +kernel
+
+/-- non-vacuity of `accept_complete`: the example input is complete; one step outside the range it is not -/
+example : complete {} exampleTy exampleIn = true := by decide +kernel
+
+example : complete {} exampleTy
+    (.obj [("a".toList, .num "7".toList), ("b".toList, .num "6".toList), ("d".toList, .str "bar".toList),
+           ("e".toList, .obj [("x".toList, .str "1".toList)])]) = false := by decide +kernel
 
 end GoZero.C08.Props
